@@ -451,21 +451,49 @@ def toml_of(spec, cname):
 SPELL = {"plain": "%s", "dot": "./%s", "updown": "zz/../%s", "absolute": "@R@/%s", "var": "{cfgroot}/%s", "slashes": ".//%s"}
 
 
-def materialise(spec):
+def wipe(root):
+    """remove everything below `root`"""
+    for name in os.listdir(root):
+        p = os.path.join(root, name)
+        if os.path.isdir(p) and not os.path.islink(p):
+            shutil.rmtree(p, ignore_errors=True)
+        else:
+            os.remove(p)
+
+
+def materialise(spec, root=None):
+    """write the configuration files and the tree of `spec`.  With a `root` (a session rewrites ONE directory between the
+    calls): the directory is brought to exactly this content the way a user edits a checkout — files that are no longer wanted
+    are deleted, files whose text is unchanged are NOT touched (they keep their inode and mtime)"""
     os.makedirs(SCRATCH, exist_ok=True)
-    root = os.path.realpath(tempfile.mkdtemp(prefix="run-", dir=SCRATCH))
+    fresh = root is None
+    if fresh:
+        root = os.path.realpath(tempfile.mkdtemp(prefix="run-", dir=SCRATCH))
+    want = {}
     for cname, cf in spec["configs"].items():
-        p = os.path.join(root, cf["file"])
-        os.makedirs(os.path.dirname(p), exist_ok=True)
         if cf.get("missing") == "absent":
             continue
-        with open(p, "w") as f:
-            f.write("[[paths]\n" if cf.get("missing") else toml_of(spec, cname).replace("@R@", root))
+        want[os.path.join(root, cf["file"])] = "[[paths]\n" if cf.get("missing") else toml_of(spec, cname).replace("@R@", root)
     for rel in spec["files"]:
-        p = root + rel
+        want[root + rel] = "k = v\n"
+    if not fresh:
+        for d, dirs, files in os.walk(root, topdown=False):
+            for f in files:
+                p = os.path.join(d, f)
+                if p not in want:
+                    os.remove(p)
+            if d != root and not os.listdir(d):
+                os.rmdir(d)
+    for cname, cf in spec["configs"].items():
+        os.makedirs(os.path.dirname(os.path.join(root, cf["file"])), exist_ok=True)
+    for p, text in want.items():
+        if not fresh and os.path.isfile(p):
+            with open(p) as f:
+                if f.read() == text:
+                    continue
         os.makedirs(os.path.dirname(p), exist_ok=True)
         with open(p, "w") as f:
-            f.write("k = v\n")
+            f.write(text)
     return root
 
 
@@ -500,7 +528,22 @@ def run_case(spec):
         shutil.rmtree(root, ignore_errors=True)
 
 
-def _run(spec, root):
+def pf_result(pf, universe, strip):
+    """list(pf) and pf.match(p) for every path of the universe: (result for the oracle, canonical text)"""
+    items = [[strip(a), strip(b), strip(c), sorted(t)] for a, b, c, t in pf]
+    looks = {}
+    for p in universe:
+        m = pf.match(p)
+        looks[strip(p)] = None if m is None else [strip(m[0]), strip(m[1]), strip(m[2]), sorted(m[3])]
+    canon = "ok|" + ";".join(fmt_item(i) for i in items) + "|" + ";".join(
+        "None" if looks[strip(p)] is None else fmt_item(looks[strip(p)]) for p in universe)
+    return {"items": items, "looks": looks}, canon
+
+
+def _run(spec, root, sess=None):
+    """`sess` (a `Session`): this project is one step of a parser session — every parse goes through the session's ONE
+    TOMLParser object and is recorded, the ProjectFiles objects are built in the order the step asks for, kept, and listed again
+    at the end of the step; the table streams (`pf.run`, `pfm.run`) are left to the stateless cases."""
     from compare_locales.paths import TOMLParser, ProjectFiles
     from compare_locales.paths.files import REFERENCE_LOCALE
     from compare_locales import mozpath
@@ -515,24 +558,34 @@ def _run(spec, root):
     ignore = bool(spec.get("ignore"))
     # ---- the TOML route: real TOMLParser vs the model run on toml.load of the same files (`c13.toml.parse`)
     cfgfiles = [os.path.join(root, cf["file"]) for cf in spec["configs"].values()]
-    world = TCF.world_tokens(ignore, os.getcwd(), penv, TCF.load_world(cfgfiles))
+    loaded = TCF.load_world(cfgfiles)
+    world = TCF.world_tokens(ignore, os.getcwd(), penv, loaded)
     projects = []
     raised = False
+
+    def parse(top):
+        if sess is None:
+            return TOMLParser().parse(top, env=dict(penv), ignore_missing_includes=ignore)
+        return sess.parse(top, penv, ignore, loaded, bool(spec.get("env_none")))
+
     for c in spec["projects"]:
         top = os.path.join(root, spec["configs"][c]["file"])
         deep = spec.get("deep")
         out["plines"].append(" ".join(["c13.toml.parse"] + world + [TCF.enc(top), TCF.locs(deep)]))
         gone = sem.first_missing(c)
         try:
-            pc = TOMLParser().parse(top, env=dict(penv), ignore_missing_includes=ignore)
+            pc = parse(top)
             if gone is not None and not ignore:
                 out["violations"].append({"what": "config %s: the file of the include/exclude %s cannot be loaded and ignore_missing_includes is off, "
                                           "but parse returned a configuration" % (spec["configs"][c]["file"], spec["configs"][gone]["file"]), "finding": None})
             projects.append(pc)
             if deep is not None:
                 # what `compare-locales --full` does; on a second parse, so that the enumeration below sees the file's locales
-                pc2 = TOMLParser().parse(top, env=dict(penv), ignore_missing_includes=ignore)
-                pc2.set_locales(list(deep), deep=True)
+                pc2 = parse(top)
+                if sess is None:
+                    pc2.set_locales(list(deep), deep=True)
+                else:
+                    sess.deep(pc2, deep)
                 out["pimpl"].append(TCF.canon_pc(pc2))
                 bad = [strip(x.path) for x in pc2.configs if x.locales != list(deep)]
                 if bad:
@@ -599,29 +652,30 @@ def _run(spec, root):
     sem.files = set(strip(p) for p in fsfiles)
 
     mbase_all = mbase
-    for loc in spec["locales"] + [None]:
+    kept = []
+    order = spec["locales"] + [None]
+    if sess is not None and spec.get("order") is not None:
+        order = list(spec["order"])
+    for loc in order:
         # validation mode with a merge stage raises TypeError (with_env({"locale": None})): exercised only when `vmerge` is set
         mbase = mbase_all if (loc is not None or spec.get("vmerge")) else None
         # ---- real implementation
         res = None
         try:
             pf = ProjectFiles(loc, projects, mergebase=mbase)
-            items = [[strip(a), strip(b), strip(c), sorted(t)] for a, b, c, t in pf]
-            looks = {}
-            for p in universe:
-                m = pf.match(p)
-                looks[strip(p)] = None if m is None else [strip(m[0]), strip(m[1]), strip(m[2]), sorted(m[3])]
-            res = {"items": items, "looks": looks}
-            canon = "ok|" + ";".join(fmt_item(i) for i in items) + "|" + ";".join(
-                "None" if looks[strip(p)] is None else fmt_item(looks[strip(p)]) for p in universe)
+            res, canon = pf_result(pf, universe, strip)
+            kept.append((pf, canon, loc))
         except (RuntimeError, AttributeError, TypeError) as e:
             canon = "err:" + type(e).__name__
         out["impl"].append(canon)
         out["locales"].append(loc)
-        # ---- model input from the real objects
-        out["lines"].append(model_line(projects, loc, mbase, universe, len(fsfiles), strip, REFERENCE_LOCALE))
-        # ---- the same case for the composed model (pattern TEXTS instead of match tables)
-        out["mlines"].append(model_line_m(projects, loc, mbase, universe, len(fsfiles), strip, root, REFERENCE_LOCALE))
+        if sess is None:
+            # ---- model input from the real objects
+            out["lines"].append(model_line(projects, loc, mbase, universe, len(fsfiles), strip, REFERENCE_LOCALE))
+            # ---- the same case for the composed model (pattern TEXTS instead of match tables)
+            out["mlines"].append(model_line_m(projects, loc, mbase, universe, len(fsfiles), strip, root, REFERENCE_LOCALE))
+        else:
+            sess.files(projects, loc, mbase, universe, len(fsfiles), canon)
         # ---- and for parsing composed with enumeration: the toml.load dictionaries, the env and the tree (`c13.toml.run`)
         out["rlines"].append(" ".join(
             ["c13.toml.run"] + world + ["-" if loc is None else enc(loc), "-" if mbase is None else enc(mbase),
@@ -642,7 +696,215 @@ def _run(spec, root):
             st["hits"] = st.get("hits", 0) + sum(1 for v in res["looks"].values() if v is not None)
         else:
             st["raised"] = st.get("raised", 0) + 1
+    if sess is not None:
+        # the ProjectFiles objects built during this step, enumerated again after all the others were built from the same
+        # configuration objects: one object, one tree => one listing
+        for pf, canon, loc in kept:
+            try:
+                again = pf_result(pf, universe, strip)[1]
+            except Exception as e:      # noqa
+                again = "raised " + type(e).__name__
+            if again != canon:
+                out["violations"].append({"what": "the ProjectFiles object for locale %s, enumerated again on the unchanged tree after ProjectFiles "
+                                          "objects for %r were built from the same configurations, gives %s; its first listing was %s" % (
+                                              loc, [l for _, _, l in kept], readable_items(again), readable_items(canon)), "finding": None, "locale": loc})
+        if spec.get("deep_after") is not None:
+            # what `compare-locales` does with every parsed configuration: set_locales(locales, deep=True) — then enumerate.
+            # By construction: the project and every configuration it includes now have exactly these locales.
+            import copy
+            ls = list(spec["deep_after"])
+            for pc in projects:
+                sess.deep(pc, ls)
+            spec2 = copy.deepcopy(spec)
+            inc = set()
+            for c in spec["projects"]:
+                inc.update(sem.configs_of(c))
+            for c in inc:
+                spec2["configs"][c]["locales"] = list(ls)
+            exc = set()
+            for c in spec["projects"]:
+                for x in spec["configs"][c]["excludes"]:
+                    if not sem.missing(x):
+                        exc.update(sem.configs_of(x))
+            sem2 = Sem(spec2)
+            sem2.files = sem.files
+            for loc in ls[:2]:
+                try:
+                    pf = ProjectFiles(loc, projects, mergebase=mbase_all)
+                    res, canon = pf_result(pf, universe, strip)
+                except (RuntimeError, AttributeError, TypeError) as e:
+                    res, canon = None, "err:" + type(e).__name__
+                sess.files(projects, loc, mbase_all, universe, len(fsfiles), canon)
+                # an excluded copy of a configuration that is also included keeps its own locales: one name, two objects — not judged
+                if res is not None and not spec.get("mismatch") and not (inc & exc):
+                    uni = [strip(p) for p in universe]
+                    msgs = judge(sem2, loc, res, uni)
+                    for m, fid in zip(msgs, classify_all(sem2, loc, uni, msgs)):
+                        out["violations"].append({"what": "after set_locales(%r, deep=True) on the parsed configurations: %s" % (ls, m),
+                                                  "finding": fid, "locale": loc})
     return out
+
+
+def readable_items(canon):
+    def tok(t):
+        if t.startswith("t:") and t != "t:" and all(x.isdigit() for x in t[2:].split(",")):
+            cs = [int(x) for x in t[2:].split(",")]
+            return "".join(map(chr, cs)) if max(cs) >= 32 else "tests" + str(cs)
+        return {"t:": "[]"}.get(t, t)
+    return "|".join(";".join(" ".join(tok(t) for t in item.split(" ")) for item in part.split(";")) for part in canon.split("|")[:2])[:600]
+
+
+# ---------------------------------------------------------------- parser sessions
+class Session:
+    """ONE TOMLParser object used for a sequence of parses, the ProjectConfig graphs it returned, and what was done with them.
+    Records the history as the argument of the driver op `c13.session` together with the real results in the same
+    canonical form, and judges every parse by the same call on a FRESH TOMLParser (same files, same env)."""
+
+    def __init__(self, root, share_env):
+        from compare_locales.paths import TOMLParser
+        self.root = root
+        self.parser = TOMLParser()
+        self.worlds, self.wkey = [], {}
+        self.univs, self.ukey = [], {}
+        self.ops, self.results = [], []
+        self.live, self.canon, self.born = [], [], []
+        self.violations = []
+        self.step = 0
+        self.nparse = 0
+        self.share_env = share_env
+        self.env_obj, self.env_vals = None, None
+
+    def world(self, loaded):
+        from impl import tomlcfg as TCF
+        toks = [str(len(loaded))]
+        for p, d in loaded.items():
+            toks.append(TCF.enc(p))
+            toks += TCF.tv_tokens(d)
+        k = " ".join(toks)
+        if k not in self.wkey:
+            self.wkey[k] = len(self.worlds)
+            self.worlds.append(k)
+        return self.wkey[k]
+
+    def parse(self, top, penv, ignore, loaded, env_none):
+        from compare_locales.paths import TOMLParser
+        from impl import tomlcfg as TCF
+        self.nparse += 1
+        if env_none:
+            envarg = None
+        elif self.share_env and self.env_vals == penv:
+            envarg = self.env_obj           # the caller's own dict, handed in again
+        else:
+            envarg = dict(penv)
+            self.env_obj, self.env_vals = envarg, dict(penv)
+        op = ["PARSE", "1" if ignore else "0"]
+        if env_none:
+            op.append("-")
+        else:
+            op.append(str(len(penv)))
+            for k, v in penv.items():
+                op += [enc(k), enc(v)]
+        op += [str(self.world(loaded)), enc(top)]
+        self.ops.append(" ".join(op))
+        exc = None
+        try:
+            pc = self.parser.parse(top, env=envarg, ignore_missing_includes=ignore)
+            canon = TCF.canon_pc(pc)
+        except Exception as e:      # noqa: every exception is a result
+            pc, exc, canon = None, e, TCF.canon_exc(e)
+        self.results.append(canon)
+        # the same call on a fresh object
+        try:
+            fresh = TCF.canon_pc(TOMLParser().parse(top, env=None if env_none else dict(penv), ignore_missing_includes=ignore))
+        except Exception as e:      # noqa
+            fresh = TCF.canon_exc(e)
+        if fresh != canon:
+            a, b = TCF.canon_readable(canon).replace(self.root, ""), TCF.canon_readable(fresh).replace(self.root, "")
+            i = next((j for j in range(min(len(a), len(b))) if a[j] != b[j]), min(len(a), len(b)))
+            lo = max(0, i - 160)
+            self.violations.append({"what": "session step %d, parse #%d of %s with env %r on the RE-USED TOMLParser object differs from the same call on a "
+                                    "fresh TOMLParser (same files, same env): re-used gives ...%s..., fresh gives ...%s..." % (
+                                        self.step, self.nparse, top.replace(self.root, ""), None if env_none else strip_env(penv, self.root),
+                                        a[lo:i + 200], b[lo:i + 200]), "finding": None, "step": self.step})
+        if exc is not None:
+            raise exc
+        self.live.append(pc)
+        self.canon.append(canon)
+        self.born.append((self.step, self.nparse))
+        return pc
+
+    def index(self, pc):
+        return next(i for i, x in enumerate(self.live) if x is pc)
+
+    def deep(self, pc, ls):
+        from impl import tomlcfg as TCF
+        i = self.index(pc)
+        pc.set_locales(list(ls), deep=True)
+        self.ops.append(" ".join(["DEEP", str(i), str(len(ls))] + [enc(x) for x in ls]))
+        self.canon[i] = TCF.canon_pc(pc)
+        self.results.append(self.canon[i])
+
+    def files(self, pcs, loc, mbase, universe, nfiles, canon):
+        u = " ".join([str(len(universe))] + [enc(p) for p in universe] + [str(nfiles)])
+        if u not in self.ukey:
+            self.ukey[u] = len(self.univs)
+            self.univs.append(u)
+        self.ops.append(" ".join(["FILES", str(len(pcs))] + [str(self.index(pc)) for pc in pcs] +
+                                 ["-" if loc is None else enc(loc), "-" if mbase is None else enc(mbase), str(self.ukey[u])]))
+        self.results.append(canon)
+
+    def stability(self):
+        """every configuration the caller still holds is what it was when it was returned (or deliberately changed)"""
+        from impl import tomlcfg as TCF
+        out = []
+        for i, pc in enumerate(self.live):
+            now = TCF.canon_pc(pc)
+            if now != self.canon[i]:
+                a, b = TCF.canon_readable(self.canon[i]).replace(self.root, ""), TCF.canon_readable(now).replace(self.root, "")
+                j = next((k for k in range(min(len(a), len(b))) if a[k] != b[k]), min(len(a), len(b)))
+                lo = max(0, j - 160)
+                out.append({"what": "the configuration returned by parse #%d (session step %d) changed while the caller held it: after step %d "
+                            "(later parses / set_locales on OTHER results / ProjectFiles objects) it reads ...%s..., it was ...%s..." % (
+                                self.born[i][1], self.born[i][0], self.step, b[lo:j + 200], a[lo:j + 200]), "finding": None, "step": self.step})
+                self.canon[i] = now
+        return out
+
+    def line(self):
+        from impl import tomlcfg as TCF
+        toks = ["c13.session", enc(os.getcwd()), "TT", str(len(TESTS))] + [enc(t) for t in TESTS] + [enc(self.root)]
+        toks += ["WORLDS", str(len(self.worlds))] + self.worlds
+        toks += ["UNIVS", str(len(self.univs))] + self.univs
+        toks += ["OPS", str(len(self.ops))] + self.ops
+        impl = " ## ".join(self.results + ["END"] + [TCF.canon_pc(pc) for pc in self.live])
+        return " ".join(toks), impl
+
+
+def run_session(sess):
+    """sess = {"steps": [spec, ...], "share_env": bool}: the steps are materialised one after the other in ONE directory (the
+    files of step k replace those of step k-1) and parsed by ONE TOMLParser object; every step is judged like a stand-alone
+    project (its by-construction meaning does not depend on the earlier steps)."""
+    import logging
+    logging.disable(logging.CRITICAL)
+    os.makedirs(SCRATCH, exist_ok=True)
+    root = os.path.realpath(tempfile.mkdtemp(prefix="sess-", dir=SCRATCH))
+    try:
+        rec = Session(root, bool(sess.get("share_env")))
+        steps = []
+        for k, spec in enumerate(sess["steps"]):
+            rec.step = k
+            materialise(spec, root)
+            o = _run(spec, root, rec)
+            for v in o["violations"]:
+                v.setdefault("step", k)
+                if not v["what"].startswith("session step"):
+                    v["what"] = "session step %d: %s" % (k, v["what"])
+            o["violations"] += rec.violations + rec.stability()
+            rec.violations = []
+            steps.append(o)
+        line, impl = rec.line()
+        return {"steps": steps, "sline": line, "simpl": impl, "root": root}
+    finally:
+        shutil.rmtree(root, ignore_errors=True)
 
 
 def strip_env(env, root):
